@@ -241,7 +241,7 @@ def canon_value(v):
     if isinstance(v, int):
         return ["i", str(v)]
     if isinstance(v, float):
-        return ["f", repr(v)]
+        return ["f", repr(v if v != 0 else 0.0)]  # exact value; -0.0 == 0.0 (IEEE equality)
     if isinstance(v, str):
         return ["s", v]
     if isinstance(v, tuple):
